@@ -112,6 +112,26 @@ func (s *sink) Write(p []byte) (int, error) {
 	return len(p), nil
 }
 
+// failOnceSink: the first Write takes k bytes (at most) and fails; later Writes succeed and are recorded in after
+type failOnceSink struct {
+	k      int
+	failed bool
+	after  []byte
+}
+
+func (s *failOnceSink) Write(p []byte) (int, error) {
+	if !s.failed {
+		s.failed = true
+		n := s.k
+		if n > len(p) {
+			n = len(p)
+		}
+		return n, errors.New("no space left on device")
+	}
+	s.after = append(s.after, p...)
+	return len(p), nil
+}
+
 // POISON is what the caller's array holds outside the chunk and, after Write has returned, everywhere ('7': a word
 // character, a decimal and a hex digit - bytes read back from a retained slice glue to an address that follows)
 const POISON = '7'
@@ -357,6 +377,9 @@ func handle(args []string) string {
 		chunks = append(chunks, st[prev:])
 		return deliver(chunks)
 	}
+	if len(args) == 3 && args[0] == "writef" {
+		return handleWriteF(args)
+	}
 	if len(args) != 2 {
 		return "!badcase"
 	}
@@ -376,6 +399,7 @@ func handle(args []string) string {
 		return hexOrDash(safelog.Scrub(in))
 	case "write":
 		return deliver(payloads(args[1]))
+
 	case "conc":
 		s := &sink{nlOK: true}
 		ls := &safelog.LogScrubber{Output: s}
@@ -408,6 +432,46 @@ func handle(args []string) string {
 		return "o=" + hexOrDash([]byte(strings.Join(lines, ""))) + " nl=" + flag(s.nlOK) + mod
 	}
 	return "!badcase"
+}
+
+// handleWriteF: writef <k> <chunks>
+func handleWriteF(args []string) string {
+	// writef <k> <chunks>: a sink whose FIRST call takes k bytes and then fails (disk full, closed pipe), and which works
+	// again afterwards.  Whatever the scrubber hands to the sink after the failure must still be whole scrubbed lines:
+	// every line that reaches the sink then is the scrubbed form of a complete line of the input (repeats allowed).
+	k, err := strconv.Atoi(args[1])
+	if err != nil {
+		return "!badcase"
+	}
+	chunks := payloads(args[2])
+	var all []byte
+	for _, w := range chunks {
+		all = append(all, w...)
+	}
+	ref := map[string]bool{}
+	for _, l := range strings.SplitAfter(string(safelog.Scrub(append([]byte(nil), all...))), "\n") {
+		ref[l] = true
+	}
+	fs := &failOnceSink{k: k}
+	ls := &safelog.LogScrubber{Output: fs}
+	for _, w := range chunks {
+		ls.Write(append([]byte(nil), w...))
+	}
+	if !fs.failed {
+		return "nofail"
+	}
+	for _, l := range strings.SplitAfter(string(fs.after), "\n") {
+		if l == "" {
+			continue
+		}
+		if !strings.HasSuffix(l, "\n") {
+			return "partial-unterminated x" + wire.Hex([]byte(l))
+		}
+		if !ref[l] {
+			return "partial x" + wire.Hex([]byte(l))
+		}
+	}
+	return "ok"
 }
 
 func main() { wire.Loop(handle) }
